@@ -36,7 +36,8 @@ static Obj *known (ppointer p) { int i; for (i = nobjs - 1; i >= 0; i--) if (obj
 /* the library's allocator (p_mem_set_vtable): a released block is overwritten before it goes back to the C library, as a debugging
  * allocator of an application would do - a node read after its release then yields 0xA5 bytes, not the old contents */
 typedef struct { size_t n; size_t pad; } PHdr;
-static ppointer pz_malloc (psize n) { PHdr *h = malloc (sizeof (PHdr) + n); if (!h) return NULL; h->n = n; return h + 1; }
+static int pz_fail_next;      /* > 0: the n-th allocation from now on is refused once */
+static ppointer pz_malloc (psize n) { PHdr *h; if (pz_fail_next > 0 && --pz_fail_next == 0) return NULL; h = malloc (sizeof (PHdr) + n); if (!h) return NULL; h->n = n; return h + 1; }
 static void pz_free (ppointer p) { PHdr *h; if (!p) return; h = (PHdr *) p - 1; memset (p, 0xA5, h->n); free (h); }
 static ppointer pz_realloc (ppointer p, psize n) { ppointer q; if (!p) return pz_malloc (n); q = pz_malloc (n); if (!q) return NULL; memcpy (q, p, ((PHdr *) p - 1)->n < n ? ((PHdr *) p - 1)->n : n); pz_free (p); return q; }
 static void kdestroy (ppointer p) { Obj *o = p; if (!p && nullmode) { if (ndlog < 4096) { dlog[ndlog][0] = 'K'; dlog[ndlog][1] = nullk_cur ? nullk_cur : -3; ndlog++; } nullk_cur = 0; return; } if (p && !known (p)) { if (ndlog < 4096) { dlog[ndlog][0] = 'K'; dlog[ndlog][1] = -2; ndlog++; } return; } if (ndlog < 4096) { dlog[ndlog][0] = 'K'; dlog[ndlog][1] = o ? o->id : -1; ndlog++; } if (o) { int i; o->destroyed++; /* a destroyed key is dead: whoever still compares with it gets nonsense */ for (i = nobjs - 1; i >= 0; i--) if (objs[i] == o) { o->k = shadow[i].k = -7; break; } } }
@@ -201,6 +202,16 @@ int main (int argc, char **argv) {
 			p_tree_insert (tree, k, v);
 			if (nk) nullk_cur = kid;
 			VT ("{\"e\":\"ins\",\"k\":%d,\"kid\":%d,\"vid\":%d,\"n\":%d,", a, kid, v->id, (int) p_tree_get_nnodes (tree));
+			emit_d (); VT ("}"); VT_END ();
+		}
+		else if (!strcmp (op, "insfail")) {     /* an insert of a key that is not stored, with memory running out for the node: nothing is stored and nothing is
+							 * destroyed - the pair stays the caller's (who throws it away here, without notifiers) */
+			Obj probe, *k, *v; int nk = nullmode && a == 1;
+			probe.magic = MAGIC; probe.k = a; probe.id = 0;
+			if (nk || p_tree_lookup (tree, &probe) != NULL) continue;
+			k = mkobj ('K', a); v = mkobj ('V', a);
+			pz_fail_next = 1; p_tree_insert (tree, k, v); pz_fail_next = 0;
+			VT ("{\"e\":\"insfail\",\"k\":%d,\"kid\":%d,\"vid\":%d,\"n\":%d,\"found\":%d,", a, k->id, v->id, (int) p_tree_get_nnodes (tree), p_tree_lookup (tree, &probe) != NULL);
 			emit_d (); VT ("}"); VT_END ();
 		}
 		else if (!strcmp (op, "insv")) {        /* insert with a new key object and the value object that is stored under that key right now */
